@@ -3,7 +3,7 @@ _UB_TEMPLATES = ["free-free-nopool", "free-free-pool", "dup-free-pool", "dup-fre
 TARGET = dict(
     rule=("executor refcount: 2-3 logical threads share one urefcount; the tape distributes 0-2 initial references per thread and a program of <=4 use/release "
           "each (executed only while the thread holds a reference; what is still held is released at the end) and the schedule; executor ubufshare: the same with "
-          "handles of one ubuf_block_mem area (dup / free / read; optionally the pools flushed with idle structures beforehand, and the creator's reference on the manager released by a thread during the race) over the counting umem, ubuf and shared-structure pools of depth 0, 1 or 2; threads are coroutines "
+          "handles of one ubuf_block_mem area (dup / free / read; optionally the pools flushed with idle structures beforehand, and the creator's references on the buffer manager and the memory manager released by a thread during the race) over the counting umem, ubuf and shared-structure pools of depth 0, 1 or 2; threads are coroutines "
           "over the real code with a scheduling point before every uatomic operation (and ring-element access of the pools); oracle: destructor / area free exactly "
           "once, never while the harness' outstanding-reference counter is non-zero, use never sees a dead refcount, bytes intact, no unknown free, nothing live at the end; "
           "non-trivial = two releases (frees) in flight at the same step; distinct by hash of program + schedule; plus enumeration of every interleaving of 6 refcount "
